@@ -110,7 +110,7 @@ def _cases(draw):
                            "bias": draw(st.sampled_from([0.5, -0.5, 1.0]))})
     # actual ids of the two engines ("engine 1/2" everywhere else in a case are logical names); 0 is a valid id
     eng_ids = draw(st.sampled_from([[1, 2], [1, 2], [0, 2], [3, 0], [0, 7]]))
-    return {"start": iso(t0), "dt": dt, "nsteps": n, "events": events, "eng_ids": eng_ids}
+    return {"start": iso(t0), "dt": dt, "nsteps": n, "events": events, "eng_ids": eng_ids, "added_sensor": draw(st.sampled_from(["space", "ground"]))}
 
 
 # ------------------------------------------------------------------------------------------------
@@ -140,10 +140,12 @@ def _build_config(case):
     t4 = kit.eci_target(T4, st_t4)
     s1 = kit.ground_sensor(S1, *SITE_A)
     s2 = kit.ground_sensor(S2, *SITE_B)
-    # the sensor added by event is space based: the sensor-addition event stores an ECI state and cannot
-    # describe a ground facility (see DESIGN.md section 8)
-    s3 = kit.space_sensor(S3, kit.circular_state_over(*SITE_A, t0, R_MEO - 6000.0, heading_deg=20.0, offset_deg=(1.0, -1.0)),
-                          kind="adv_radar")
+    # the sensor added by event is space based or (since repair S41 made that possible) a ground facility
+    if case.get("added_sensor") == "ground":
+        s3 = kit.ground_sensor(S3, SITE_A[0] - 2.0, SITE_A[1] + 1.5)
+    else:
+        s3 = kit.space_sensor(S3, kit.circular_state_over(*SITE_A, t0, R_MEO - 6000.0, heading_deg=20.0, offset_deg=(1.0, -1.0)),
+                              kind="adv_radar")
     s5 = kit.ground_sensor(S5, SITE_B[0] + 1.0, SITE_B[1] + 1.0)
     engines = [kit.engine(l2a[1], [s1], [t1, t2]), kit.engine(l2a[2], [s2, s5], [t1, t4])]
     evs = []
@@ -267,7 +269,7 @@ def scenario_events(case, rec):
         rec.nontrivial(key)
     rec.label("engine_ids:%s" % (case.get("eng_ids", [1, 2]),))
     for e in evs:
-        rec.label("kind:" + e["kind"])
+        rec.label("kind:" + e["kind"] + (":" + case.get("added_sensor", "space") if e["kind"] == "sensor_addition" else ""))
         rec.label("aligned" if e["tau"] % dt == 0 else "inside")
         if e["tau"] != int(e["tau"]):
             rec.label("fractional_second_event_time")
